@@ -1173,5 +1173,7 @@ func replayFromOb(cf *checkFlags, eng *Eng, ob *Obligation, rp map[string]interf
 		rp["replay_outcome"] = ro
 		return true, detail
 	}
+	rp["last_unconfirmed_test"] = truncate(src, 6000)
+	rp["last_unconfirmed_outcome"] = ro
 	return false, "model input does not fail on the real code"
 }
